@@ -231,7 +231,23 @@ fn run_job_inner(job: &Value) -> String {
                         verif::emit("Cb", |f| {
                             f.str("kind", k).bool("more", more);
                         });
-                        items.push(json!({"kind": k, "text": text, "more": more}));
+                        let det = match &r {
+                            SubstitutionResult::Definite(s) | SubstitutionResult::Ambiguous(s) if detail => {
+                                let kinds: Vec<Value> = s.binders.iter(ChalkIr).map(|k| {
+                                    let kind = match &k.kind {
+                                        chalk_ir::VariableKind::Ty(chalk_ir::TyVariableKind::General) => "ty",
+                                        chalk_ir::VariableKind::Ty(chalk_ir::TyVariableKind::Integer) => "int",
+                                        chalk_ir::VariableKind::Ty(chalk_ir::TyVariableKind::Float) => "float",
+                                        chalk_ir::VariableKind::Lifetime => "lt",
+                                        chalk_ir::VariableKind::Const(_) => "const",
+                                    };
+                                    json!({"kind": kind, "u": k.skip_kind().counter})
+                                }).collect();
+                                json!({"subst": s.value.subst.iter(ChalkIr).map(crate::terms::arg_json).collect::<Vec<_>>(), "binders": kinds})
+                            }
+                            _ => json!(null),
+                        };
+                        items.push(json!({"kind": k, "text": text, "more": more, "detail": det}));
                         n < max
                     });
                     json!({"class": if done {"Done"} else {"Stopped"}, "text": ""})
@@ -258,6 +274,19 @@ fn run_job_inner(job: &Value) -> String {
                 if trace {
                     all_events.extend(evs);
                 }
+            }
+            if detail {
+                let qb: Vec<Value> = peeled.canonical.binders.iter(ChalkIr).map(|k| {
+                    let kind = match &k.kind {
+                        chalk_ir::VariableKind::Ty(chalk_ir::TyVariableKind::General) => "ty",
+                        chalk_ir::VariableKind::Ty(chalk_ir::TyVariableKind::Integer) => "int",
+                        chalk_ir::VariableKind::Ty(chalk_ir::TyVariableKind::Float) => "float",
+                        chalk_ir::VariableKind::Lifetime => "lt",
+                        chalk_ir::VariableKind::Const(_) => "const",
+                    };
+                    json!({"kind": kind, "u": k.skip_kind().counter})
+                }).collect();
+                r["query"] = json!({"binders": qb, "universes": peeled.universes});
             }
             r["calls"] = json!(wdb.calls.get() - calls0);
             r["cb"] = json!(cb_count.get());
